@@ -235,6 +235,21 @@ CHECKS = {
              '(two construction-time crashes of the CPHD checker, two rejections of create_subset_structure metadata). ' + TB,
         technique='Lean 4 proof (induction, omega) + runner correspondence on generated toy checkers + file-rule correspondence on '
                   'independently parsed bytes + acceptance / mutation-catalogue oracle on the real checkers'),
+    'C20': dict(
+        text='Lean 4 theorems over the reals, for every plane, window, coordinate, product size and block size: the PGProjection '
+             'ortho-grid <-> ECF maps are mutually inverse for orthonormal axes and the plane written into the SIDD names the same '
+             'ground point as the ortho grid; numpy.digitize on consecutive lines is floor+1, so the unrepaired index function reads '
+             'source line floor(x)+1, which is the nearest line exactly when the fractional part is >= 1/2 (negation witness at integer '
+             'coordinates), while the repaired index function (digitize, then step back when the lower line is strictly closer) is '
+             'the nearest line everywhere inside the mask; the nearest line is within 1/2 and minimal; pad value outside the window; '
+             'blocks assembled over any consecutive tiling equal the whole product. Tied to the source by Float correspondence (which '
+             'of the two index models the implementation follows is reported per run) and by an end-to-end oracle that projects '
+             'every product pixel through the product\'s own metadata into the source.',
+        design='DESIGN.md 6/C20',
+        note='proof, partial: projection numerics (C04), block window sufficiency and IEEE rounding are by correspondence; the half-pixel '
+             'rim is accepted either way; ties within 2.5e-3 px are undecided; PGRatPolyProjection / DEM not covered. ' + TB,
+        technique='Lean 4 proof (Mathlib floor/round, linear_combination, list induction on C03 tilings) + Float-instantiated model '
+                  'correspondence + end-to-end product oracle (SIDD metadata -> ground -> source pixel)'),
 }
 
 
